@@ -199,6 +199,13 @@ def run(ctx):
                 g = index_guards(b)
                 ok = bool(g)
                 ctx.oblig(ok, {"cursor reset at": sp_file_line(s.get("sp")), "under": [expr_str(c, 60) for c, v in g]}, "control-dependent on a comparison on history.index")
+                ev_ = expr_str(hk.rvalue_expr(s["r"], 12), 300)
+                ok2 = "get_current(" in ev_ and "count(" in ev_
+                ctx.oblig(ok2, {"cursor :=": ev_[:80]}, "length of the line now shown (get_current), not of the draft")
+                if not ok2:
+                    ctx.violation("history-cursor-line", sp_file_line(s.get("sp")),
+                                  "after a history key the cursor is set to `%s`; it must be the character count of the line now shown (get_current()): "
+                                  "with a draft of another length the cursor is off the end of, or in the middle of, the recalled line" % ev_[:100])
                 if not ok:
                     ctx.violation("history-cursor-unconditional", sp_file_line(s.get("sp")),
                                   "a history key moves the cursor even when the focused entry does not change (no guard on history.index): "
